@@ -496,7 +496,8 @@ VARIANT_TEXT = (" Representation probes (sub-checks 'variant_cells', 'variants')
                 "held: integer-typed pose matrices (also as FIRST value of a multi-valued object) versus float64; objects of 70 and 300 values "
                 "versus single-valued results; operands carrying the coherent rounding of ((X**8)**8)**8 versus the same operands "
                 "re-orthonormalised; a write through .A of a default-constructed object or of one Alloc slot must not change later default "
-                "objects / other slots; 3000 consecutive products stay valid and never raise.")
+                "objects / other slots; 3000 consecutive products stay valid and never raise; matrices held column-major, as a transposed view, "
+                "as a strided view of a larger array or with negative strides versus row-major copies of the same values.")
 OWN_TEXT = (" Result ownership (sub-checks 'ownership_cells', 'ownership'): a returned value belongs to the caller; after every array in it "
             "is overwritten in place, the same call (and a second call of the table) on equal fresh inputs must return what it returned "
             "before (no shared module-level constants, cached arrays or reused buffers); zero angles / identity inputs included.")
